@@ -36,7 +36,7 @@ def knots(draw, N):
 
 @st.composite
 def strategy_(draw):
-    kind = gen.weighted(draw, [("micro", 3), ("signal", 3), ("splinemethod", 3)])
+    kind = gen.weighted(draw, [("micro", 3), ("signal", 3), ("splinemethod", 3), ("spline_signal", 2)])
     rng = draw(st.integers(0, 2**31 - 1))
     if kind == "micro":
         N = draw(st.integers(1, 8))
@@ -51,6 +51,10 @@ def strategy_(draw):
             m["intg"] = draw(st.sampled_from(["rk", "expl_euler"]))
         return {"kind": kind, "method": m, "order_v": draw(st.integers(0, 4)), "order_p": draw(st.integers(0, 4)), "rows": draw(st.sampled_from([1, 1, 2])), "which": draw(st.sampled_from(["v", "p", "both"])), "der_first": draw(st.sampled_from([True, True, False])),
                 "T": draw(st.sampled_from([["num", 2.0], ["num", 0.5], ["free", 1.5]])), "t0": draw(st.sampled_from([0.0, 1.0, -0.5])), "refine": draw(st.integers(1, 5)), "rng": rng}
+    if kind == "spline_signal":
+        return {"kind": kind, "N": draw(st.integers(1, 5)), "grid": draw(gen.grid(classes=("uniform", "geometric", "function"), localize=False)), "order_v": draw(st.integers(1, 4)),
+                "order_p": draw(st.integers(1, 4)), "rows": draw(st.sampled_from([1, 1, 2])), "T": draw(st.sampled_from([1.0, 2.5, 0.5])), "t0": draw(st.sampled_from([0.0, 1.0])),
+                "refine": draw(st.integers(1, 4)), "rng": rng}
     # integrator chains: list of (length L >= 1 = number of states in the chain, width)
     chains = [{"L": draw(st.integers(1, 3)), "w": draw(st.sampled_from([1, 1, 2]))} for _ in range(draw(st.integers(1, 3)))]
     return {"kind": kind, "chains": chains, "N": draw(st.integers(1, 5)), "grid": draw(gen.grid(classes=("uniform", "geometric", "function"), localize=False)),
@@ -67,6 +71,8 @@ def nontrivial(case):
         return case["d"] >= 1 or case["refine"] > 1 or case["xi"] != [i / case["N"] for i in range(case["N"] + 1)]
     if case["kind"] == "signal":
         return case["order_v"] >= 1 or case["order_p"] >= 1 or gen.grid_nontrivial(case["method"]["grid"])
+    if case["kind"] == "spline_signal":
+        return True
     return any(c["L"] >= 2 for c in case["chains"]) or case["refine"] > 1 or gen.grid_nontrivial(case["grid"])
 
 
@@ -76,6 +82,8 @@ def classify(case):
         return ["micro", "degree:%d" % case["d"], "refine:%d" % case["refine"]]
     if k == "signal":
         return ["signal", "method:" + case["method"]["cls"], "order_v:%d" % case["order_v"], "order_p:%d" % case["order_p"], "grid:" + case["method"]["grid"]["cls"], "T:" + case["T"][0]]
+    if k == "spline_signal":
+        return ["spline_signal", "order_v:%d" % case["order_v"], "order_p:%d" % case["order_p"], "T:%s" % case["T"], "grid:" + case["grid"]["cls"]]
     return ["splinemethod", "grid:" + case["grid"]["cls"], "maxchain:%d" % max(c["L"] for c in case["chains"]), "refine:%d" % case["refine"]] + (["solve"] if case["solve"] else [])
 
 
@@ -423,21 +431,102 @@ def check_splinemethod(case, ctx):
     # same optimum as MultipleShooting on problems both represent exactly (piecewise-constant lowest member, RK4 exact)
     if max(c["L"] for c in case["chains"]) > 3:
         return fails
+    ocpS, _ = build_chain_ocp(case, SplineMethod(N=N, grid=make_grid(case["grid"])))
+    ocpM, _ = build_chain_ocp(case, MultipleShooting(N=N, M=1, intg="rk", grid=make_grid(case["grid"])))
+    fS = fM = None
     try:
-        ocpS, _ = build_chain_ocp(case, SplineMethod(N=N, grid=make_grid(case["grid"])))
-        ocpM, _ = build_chain_ocp(case, MultipleShooting(N=N, M=1, intg="rk", grid=make_grid(case["grid"])))
-        fS = float(ocpS.solve().value(ocpS.objective))
         fM = float(ocpM.solve().value(ocpM.objective))
-    except Exception as ex:
-        raise HarnessInconclusive("solve failed: %s" % str(ex)[:60])
+    except Exception:
+        pass
+    try:
+        fS = float(ocpS.solve().value(ocpS.objective))
+    except Exception:
+        pass
     ctx.count("solves", 2)
+    if fM is None and fS is None:
+        ctx.count("chain_problem_not_solvable_by_either_method")   # e.g. more boundary conditions than degrees of freedom
+        return fails
+    if (fM is None) != (fS is None):
+        fails.append(Fail("only-one-method-solves", feats, {"spline": fS, "multiple_shooting": fM}))
+        return fails
     if not close(fS, fM, 1e-6, 1e-7):
         fails.append(Fail("optimum-differs-from-multiple-shooting", feats, {"spline": fS, "multiple_shooting": fM}))
     return fails
 
 
+def check_spline_signal(case, ctx):
+    """B-spline variable and parameter under SplineMethod: values and every derivative that exists, in physical time."""
+    from rockit import Ocp, SplineMethod
+    N, rows, dv, dp, r = case["N"], case["rows"], case["order_v"], case["order_p"], case["refine"]
+    rng = np.random.default_rng(case["rng"])
+    feats = {"kind": "spline_signal", "order_v": dv, "order_p": dp, "tgrid": case["grid"]["cls"], "T": case["T"]}
+    ocp = Ocp(t0=case["t0"], T=case["T"])
+    x = ocp.state()
+    u = ocp.control()
+    ocp.set_der(x, u)
+    v = ocp.variable(rows, 1, grid="bspline", order=dv)
+    p = ocp.parameter(rows, 1, grid="bspline", order=dp)
+    Cp = rng.uniform(-1, 1, (rows, N + dp))
+    ocp.set_value(p, Cp)
+    ders = {"v": [v], "p": [p]}
+    for nm, d in (("v", dv), ("p", dp)):
+        for j in range(d):
+            ders[nm].append(ocp.der(ders[nm][-1]))
+    obj = ocp.sum(u ** 2) + ocp.at_tf(x) ** 2
+    for nm in ("v", "p"):
+        for e in ders[nm]:
+            obj = obj + ocp.at_tf(ca.sumsqr(e)) + ocp.at_t0(ca.sumsqr(e))
+    ocp.add_objective(obj)
+    ocp.subject_to(ocp.at_t0(x) == 1)
+    ocp.method(SplineMethod(N=N, grid=make_grid(case["grid"])))
+    ocp.solver("ipopt", dict(IPOPT_QUIET))
+    fails = []
+    nlp = NLP(ocp)
+    tg, cg = ocp.sample(v, grid="gist")
+    nlp.add("gt", tg)
+    nlp.add("gc", cg)
+    for nm in ("v", "p"):
+        for j, e in enumerate(ders[nm]):
+            try:
+                t_, val = ocp.sample(e, grid="control", refine=r)
+            except Exception as ex:
+                fails.append(Fail("spline-signal-derivative-sample-raises", dict(feats, signal=nm, derivative=j), {"message": str(ex).strip().splitlines()[-1][:140]}))
+                return fails
+            if raw_symbols(val):
+                fails.append(Fail("spline-signal-sample-leaves-raw-symbol", dict(feats, signal=nm, derivative=j), {"symbols": raw_symbols(val)}))
+                return fails
+            nlp.add("%s%d" % (nm, j), val)
+            nlp.add("t%s%d" % (nm, j), t_)
+    nlp.add("tk", ocp.sample(ocp.t, grid="control")[0])
+    res = nlp.eval(rng.uniform(-1, 1, nlp.nx))
+    tk = res["tk"].reshape(-1)
+    Cv = res["gc"].reshape(rows, -1)
+    tv = clamped(tk, dv)
+    wantG = np.array([np.mean(tv[i + 1:i + dv + 1]) for i in range(N + dv)])
+    if Cv.shape[1] != N + dv or not close(res["gt"].reshape(-1), wantG, 1e-10, 1e-11):
+        fails.append(Fail("gist-greville", dict(feats, signal="v"), {"times": res["gt"].reshape(-1), "greville": wantG}))
+        return fails
+    for nm, C, d in (("v", Cv, dv), ("p", Cp, dp)):
+        t = clamped(tk, d)
+        for j in range(d + 1):
+            tt = res["t%s%d" % (nm, j)].reshape(-1)
+            got = res["%s%d" % (nm, j)].reshape(rows, -1)
+            xs = np.clip(tt, tk[0], tk[-1] - 1e-13 * (1 + abs(tk[-1])))
+            want = np.array([(BSpline(t, C[i], d).derivative(j)(xs) if j else BSpline(t, C[i], d)(xs)) for i in range(rows)])
+            # a derivative of degree <= 1 jumps (or kinks) at the knots: compare away from them
+            mk = np.ones(len(tt), dtype=bool) if d - j >= 2 else np.array([np.min(np.abs(a - tk)) > 1e-9 for a in tt])
+            if got.shape != want.shape:
+                fails.append(Fail("spline-signal-shape", dict(feats, signal=nm, derivative=j), {"shape": list(got.shape), "expected": list(want.shape)}))
+                return fails
+            if mk.any() and not close(got[:, mk], want[:, mk], 1e-7, 1e-8):
+                fails.append(Fail("spline-signal-derivative" if j else "spline-signal-value", dict(feats, signal=nm, derivative=j), {"max_err": float(np.max(np.abs(got[:, mk] - want[:, mk]))), "T": case["T"]}))
+                return fails
+    ctx.count("spline_signal_cases")
+    return fails
+
+
 def check(case, ctx):
-    return {"micro": check_micro, "signal": check_signal, "splinemethod": check_splinemethod}[case["kind"]](case, ctx)
+    return {"micro": check_micro, "signal": check_signal, "splinemethod": check_splinemethod, "spline_signal": check_spline_signal}[case["kind"]](case, ctx)
 
 
 TECHNIQUE = "property-based testing (Hypothesis): differential against scipy.interpolate.BSpline (Cox-de Boor) for basis matrices, derivatives, Greville points and sampled signals; SplineMethod vs MultipleShooting optimum on convex chain problems"
